@@ -402,13 +402,28 @@ impl Check for C09 {
             Unit::enumerate("tokens", 16),
             Unit::enumerate("handle_exhaustive", 16),
             Unit::gen("handle_random", 8, tier.pick(60_000, 600_000)),
+            Unit::enumerate("sizes", 6),
         ]
     }
     fn required_classes(&self, _tier: Tier) -> Vec<&'static str> {
-        vec!["detected:json", "detected:msgpack", "detected:yaml", "detected:toml", "undetectable", "family:truncated_msgpack_collection", "family:yaml_first_char_07xx", "family:multi_format_valid", "detected_and_translated", "handle:reader", "handle:slice", "handle:became_slice"]
+        vec!["detected:json", "detected:msgpack", "detected:yaml", "detected:toml", "undetectable", "family:truncated_msgpack_collection", "family:yaml_first_char_07xx", "family:multi_format_valid", "detected_and_translated", "handle:reader", "handle:slice", "handle:became_slice", "family:toml_below_2MiB_cutoff"]
     }
     fn run_unit(&self, unit: &Unit, shard: u32, seed: u64, tier: Tier, rec: &mut Recorder) {
         match unit.name {
+            "sizes" => {
+                // TOML from a reader is buffered for detection up to (excluding) 2 MiB:
+                // every size below that must be detected exactly as from a slice
+                let sizes = [1_000_000usize, 2_000_000, 2_000_100, 2_050_000, 2_097_151 - 4096, 2_097_151];
+                let bytes = crate::checks::c02::toml_of_size(sizes[shard as usize % sizes.len()]);
+                for sched in [Sched::Fixed(65536), Sched::Full, Sched::Fixed(8191)] {
+                    rec.trace_case(|| json!({"unit": "sizes", "size": bytes.len()}));
+                    rec.class("family:toml_below_2MiB_cutoff");
+                    if let Err(m) = check_bytes(&bytes, "toml_below_2MiB_cutoff", &sched, rec) {
+                        rec.fail(m, case_json("gen", &bytes, None, &sched, None));
+                        return;
+                    }
+                }
+            }
             "gen" => run_prop(
                 rec,
                 seed,
